@@ -93,7 +93,7 @@ def GoodAtom (env : Env) (a : Atom) : Prop :=
    else if versionLikeNames.contains a.name then
      -- an atom whose specifier view is not exact (`"3.8" ~= python_version`, ...) is opaque: never merged
      a.exactView = false ∨
-     (a.Coherent env ∧ a.spec.Canon ∧ NormGood env a ∧ (a.name = "python_version" → PvBounds a.spec))
+     (a.Coherent env ∧ a.spec.Canon ∧ NormGood env a)
    else StrName a.name)
 
 def Good (env : Env) : M → Prop
@@ -314,7 +314,6 @@ theorem ASpec.beq_holds (env : Env) (he : EnvTotal env) (n : String) (r s : ASpe
     bounds into a marker that means it -/
 def FromSpecOk (env : Env) : Prop :=
   ∀ name s m, versionLikeNames.contains name = true → ASpec.Canon (.ver s) →
-    (name = "python_version" → PvBounds (.ver s)) →
     fromSpecifier name (.ver s) = some m → GAll (Good env) m ∧ sem env m = holds env name (.ver s)
 
 /-- the python_version / python_full_version merge -/
@@ -409,33 +408,6 @@ theorem ofGRes_beq_gen (r : GRes) (g : GSpec) (h : (ASpec.ofGRes r).beq (.gen g)
   rintro rfl
   simp [ASpec.ofGRes, ASpec.beq] at h
 
-theorem good_pvbounds (env : Env) (a : Atom) (ha : GoodAtom env a) (h1 : a.name ≠ "extra")
-    (h2 : setNames.contains a.name = false) (hv : versionLikeNames.contains a.name = true)
-    (hx : a.exactView = true) :
-    a.name = "python_version" → PvBounds a.spec := by
-  have hc := ha.2
-  simp only [h1, if_false, h2, Bool.false_eq_true, hv, if_true] at hc
-  exact (hc.resolve_left (by simp [hx])).2.2.2
-
-theorem aspec_pvbounds (isAnd : Bool) (s1 s2 r : ASpec) (p1 : PvBounds s1) (p2 : PvBounds s2)
-    (hr : (if isAnd then aspecAnd s1 s2 else aspecOr s1 s2) = some r) : PvBounds r := by
-  cases s1 with
-  | gen a => cases s2 <;> cases isAnd <;> simp [aspecAnd, aspecOr] at hr <;>
-      (obtain ⟨gr, _, rfl⟩ := hr; cases gr <;> simp [ASpec.ofGRes, PvBounds, Spec.boundsIn_empty, Spec.boundsIn_any])
-  | ver a =>
-    cases s2 with
-    | gen b => cases isAnd <;> simp [aspecAnd, aspecOr] at hr
-    | ver b =>
-      cases isAnd with
-      | true =>
-        simp only [if_true, aspecAnd, Option.some.injEq] at hr
-        subst hr
-        exact Spec.and_boundsIn Pv2 a b p1 p2
-      | false =>
-        simp only [Bool.false_eq_true, if_false, aspecOr, Option.map_eq_some_iff] at hr
-        obtain ⟨s, hs, rfl⟩ := hr
-        exact Spec.or_boundsIn Pv2 a b s p1 p2 hs
-
 /-- the branch of `_merge_single_markers` where the specifier views could be combined -/
 theorem merge_some_ok (env : Env) (he : EnvTotal env) (hF : FromSpecOk env) (a b : Atom) (isAnd : Bool)
     (ha : GoodAtom env a) (hb : GoodAtom env b) (hxa : a.exactView = true) (hxb : b.exactView = true)
@@ -479,10 +451,7 @@ theorem merge_some_ok (env : Env) (he : EnvTotal env) (hF : FromSpecOk env) (a b
         cases hsa : a.spec with
         | ver sa =>
           have hvl : versionLikeNames.contains a.name = true := by rw [hsa] at ka; exact ka
-          refine hF a.name s m hvl hsem.2 ?_ hm
-          intro hpvn
-          exact aspec_pvbounds isAnd _ _ _ (good_pvbounds env a ha h1 h2 hvl hxa hpvn)
-            (good_pvbounds env b hb (hn ▸ h1) (hn ▸ h2) (hn ▸ hvl) hxb (hn ▸ hpvn)) hr
+          exact hF a.name s m hvl hsem.2 hm
         | gen ga =>
           -- a string merge that collapsed to the empty / universal specifier
           have hs : s = .empty ∨ s = .any := by
@@ -604,8 +573,17 @@ theorem mergeSingle_ok (env : Env) (he : EnvTotal env) (hF : FromSpecOk env) (hP
     (a b : Atom) (isAnd : Bool) (ha : GoodAtom env a) (hb : GoodAtom env b) (m : M)
     (h : mergeSingle a b isAnd = some m) :
     GAll (Good env) m ∧ sem env m = bop isAnd (sem env (.expr a)) (sem env (.expr b)) := by
+  by_cases hsame : a.beq b = true
+  · -- the same atom twice
+    unfold mergeSingle at h
+    rw [if_pos hsame] at h
+    cases h
+    refine ⟨ha, ?_⟩
+    have : sem env (.expr b) = sem env (.expr a) := by
+      simp only [sem, Atom.beq_eval env a b hsame]
+    rw [this, bop_idem]
   have hguard : mergeSingleCore a b isAnd = some m ∧ a.exactView = true ∧ b.exactView = true := by
-    unfold mergeSingle at h; split at h
+    unfold mergeSingle at h; rw [if_neg hsame] at h; split at h
     · rename_i hx; simp only [Bool.and_eq_true] at hx; exact ⟨h, hx.1, hx.2⟩
     · simp at h
   clear h
